@@ -88,6 +88,15 @@ PROPS = {
         ],
         'partial': 'proved: totality of build-id extraction (model of the repaired reader). Differential only: equality with the GNU note / text hash on well-formed files (independent reader), SONAME extraction (not modelled; totality is tested on every generated image), memory-vs-file agreement (live stage)',
     },
+    'C15': {
+        'abi_module': 'AbiC15',
+        'stages': quick_thorough(
+            [{'name': 'live', 'sub': 'c15', 'n': 60, 'timeout': 600}],
+            [{'name': 'live', 'sub': 'c15', 'n': 1500, 'timeout': 3000}]),
+        'assumptions': ["thread names are what /proc/<pid>/task/<tid>/comm reports (valid UTF-8 in the generated targets); trailing whitespace is trimmed by the writer",
+                        "listed threads = threads the harness itself can read registers of inside the suspended window, with non-null stack pointer"],
+        'partial': 'kernel side (comm contents, attach) observed, not proved',
+    },
     'C13': {
         'abi_module': 'AbiC13',
         'stages': quick_thorough(
